@@ -464,7 +464,7 @@ def check_property_on_impl(ctx, case, res, stats):
         flat, shp = dec(arr[key])
         r = maxdiff(A, flat, shp)
         if r is None:
-            ctx.report('impl:shape:%s:%s' % (case['name'], what), '%s: shape %s differs from the reference operator' % (key, shp),
+            ctx.report('impl:shape:%s:%s' % (case['name'], what.split('-')[0]), '%s: shape %s differs from the reference operator' % (key, shp),
                        {'case': strip_case(case), 'output': key})
             return
         worst, where = r
@@ -636,7 +636,7 @@ def run(ctx):
                         continue        # update sequences are run in the 1-thread process only
                 nthread_cmp += 1
                 if b['dig'].get(key) != d:
-                    kind = key.split('-')[0].rstrip('0123456789')
+                    kind = 'core' if key.startswith('core') else ('matrix' if key.startswith('A-') else 'entries')
                     ctx.report('impl:threads:%s:%s' % (kind, case['name']),
                                'output %s of %s differs bitwise between 1 and %d worker threads' % (key, case['id'], n),
                                {'case': strip_case(case), 'output': key, 'threads': [1, n], 'digests': [d, b['dig'].get(key)],
